@@ -56,7 +56,75 @@ def gen_hypergraph(rng, weighted=None):
     return h, uni
 
 
+def sparse_scale_case(ctx, rng, idx, many_edges):
+    """Far more nodes (70 000, almost all isolated) or hyperedges (100 040) than any index type narrower than 32 bits can
+    address; judged through the sparse structure (sets of (row, column) positions), never densified."""
+    import hypergraphx as hgx
+    from hypergraphx import linalg as la
+
+    if many_edges:
+        ctx.event("100040-hyperedges")
+        n = 450
+        nodes = [3 * i + 1 for i in range(n)]
+        edges = []
+        for i in range(n):  # every node pair at distance 1..223 on a ring: pair counts stay at 1
+            for d in range(1, 224):
+                if len(edges) < 100040:
+                    edges.append(tuple(sorted((nodes[i], nodes[(i + d) % n]))))
+        edges = list(dict.fromkeys(edges))
+    else:
+        ctx.event("70000-nodes")
+        n = 70000
+        nodes = [2 * i + 5 for i in range(n)]
+        edges = [(nodes[0], nodes[65535], nodes[65536]), (nodes[65536], nodes[69999]), (nodes[1], nodes[65537], nodes[69998], nodes[3]), (nodes[69999], nodes[2])]
+    h = hgx.Hypergraph(edges)
+    h.add_nodes(nodes)
+    listed = [tuple(e) for e in h.get_edges()]
+
+    def wit(x=None):
+        return {"nodes": n, "hyperedges": len(listed), "extra": repr(x)[:300]}
+
+    r = call(la.binary_incidence_matrix, h, return_mapping=True)
+    if isinstance(r, _Raised):
+        ctx.check("C09:incidence", False, f"C09:binary_incidence_matrix:raised:{type(r.e).__name__}", lambda: wit(r))
+        return
+    B, mp = r
+    inv = {v: k for k, v in mp.items()}
+    ctx.check("C09:mapping", len(mp) == n and set(mp.keys()) == set(range(n)) and set(inv) == set(nodes), "C09:binary_incidence_matrix:mapping-not-a-bijection", wit)
+    exp = {(inv[v], j) for j, e in enumerate(listed) for v in e}
+    C = B.tocoo()
+    got = {(int(a), int(b)) for a, b, d in zip(C.row, C.col, C.data) if d != 0}
+    ctx.check("C09:incidence", B.shape == (n, len(listed)) and got == exp and all(int(d) == 1 for d in C.data if d != 0), "C09:binary_incidence_matrix:entries", lambda: wit(sorted(got ^ exp)[:6]))
+    r = call(la.adjacency_matrix, h, return_mapping=True)
+    if isinstance(r, _Raised):
+        ctx.check("C09:adjacency", False, f"C09:adjacency_matrix:raised:{type(r.e).__name__}", lambda: wit(r))
+    else:
+        A, mp2 = r
+        inv2 = {v: k for k, v in mp2.items()}
+        expA = {}
+        for e in listed:
+            for a in e:
+                for b in e:
+                    if a != b:
+                        expA[(inv2[a], inv2[b])] = expA.get((inv2[a], inv2[b]), 0) + 1
+        Ac = A.tocoo()
+        gotA = {(int(a), int(b)): int(d) for a, b, d in zip(Ac.row, Ac.col, Ac.data) if d != 0}
+        ctx.check("C09:adjacency", A.shape == (n, n) and gotA == expA, "C09:adjacency_matrix(function):entries:sparse-scale", lambda: wit((len(gotA), len(expA))))
+    if not many_edges:
+        r = call(la.dual_random_walk_adjacency, h, return_mapping=True)
+        if not isinstance(r, _Raised):
+            Dm = r[0].tocoo()
+            gotD = {(int(a), int(b)) for a, b, d in zip(Dm.row, Dm.col, Dm.data) if d != 0}
+            expD = {(i, j) for i, e in enumerate(listed) for j, f in enumerate(listed) if set(e) & set(f)}
+            ctx.check("C09:dual", gotD == expD, "C09:dual_random_walk_adjacency:entries", lambda: wit(sorted(gotD ^ expD)[:6]))
+    ctx.distinct_add(("sparse-scale", many_edges))
+
+
 def run_case(ctx, rng, idx):
+    if idx == 9 or (ctx.tier == "thorough" and idx % 6000 == 9):
+        return sparse_scale_case(ctx, rng, idx, many_edges=False)
+    if ctx.tier == "thorough" and idx % 6000 == 17:
+        return sparse_scale_case(ctx, rng, idx, many_edges=True)
     m = idx % 8
     if idx == 1 or (ctx.tier == "thorough" and idx % 800 == 9):
         from ..gen import big_hypergraph
